@@ -13,6 +13,7 @@ import shutil
 import subprocess
 import sys
 import tempfile
+import threading
 import time
 
 VERIF = os.path.dirname(os.path.dirname(os.path.abspath(__file__)))
@@ -149,6 +150,10 @@ class Run:
         }
 
 
+_RETRY_LOCK = threading.Lock()
+_CONFIRMED_TIMEOUTS = [0]
+
+
 def run_delta(args, stdin=b"", env=None, timeout=20, cwd=None, binary=None, mem_kb=None,
               prefix_args=("--paging", "never"), allow_usage_error=False):
     """Run the freshly built delta once. Returns a Run. Never raises on crash (a crash is data)."""
@@ -164,12 +169,27 @@ def run_delta(args, stdin=b"", env=None, timeout=20, cwd=None, binary=None, mem_
     if mem_kb:
         # address-space cap (C03: runaway allocation must not take the machine down)
         argv = ["prlimit", f"--as={mem_kb * 1024}", "--core=0"] + argv
-    try:
-        p = subprocess.run(argv, input=stdin, env=full_env, cwd=r.cwd, timeout=timeout,
-                           stdout=subprocess.PIPE, stderr=subprocess.PIPE)
-        r.out, r.err, r.code, r.timed_out = p.stdout, p.stderr, p.returncode, False
-    except subprocess.TimeoutExpired as e:
-        r.out, r.err, r.code, r.timed_out = e.stdout or b"", e.stderr or b"", -999, True
+    # A time-out is a verdict ("did not terminate") only if it is not the machine's fault: a run that exceeds its
+    # budget is repeated once, alone (under a lock, so that at most one such retry runs at a time) and with a budget
+    # twelve times as large; only if that one times out too is the run reported as timed out.
+    for attempt in (0, 1):
+        if attempt == 1 and _CONFIRMED_TIMEOUTS[0] >= 3:
+            break          # non-termination has been confirmed several times in this check: no need to wait again
+        budget = timeout if attempt == 0 else max(120, timeout * 12)
+        try:
+            if attempt == 1:
+                _RETRY_LOCK.acquire()
+            p = subprocess.run(argv, input=stdin, env=full_env, cwd=r.cwd, timeout=budget,
+                               stdout=subprocess.PIPE, stderr=subprocess.PIPE)
+            r.out, r.err, r.code, r.timed_out = p.stdout, p.stderr, p.returncode, False
+            break
+        except subprocess.TimeoutExpired as e:
+            r.out, r.err, r.code, r.timed_out = e.stdout or b"", e.stderr or b"", -999, True
+            if attempt == 1:
+                _CONFIRMED_TIMEOUTS[0] += 1
+        finally:
+            if attempt == 1:
+                _RETRY_LOCK.release()
     r.wall = time.time() - t0
     if not allow_usage_error and r.code == 2 and b"Usage:" in r.err:
         # clap rejected the command line: a mistake of the harness, never a verdict about delta
